@@ -689,3 +689,81 @@ Proof.
   - intros s Hs. rewrite bool_decide_eq_false_2; [done|]. intros ->. done.
   - case_bool_decide as E; [|done]. unfold const_val. rewrite (Hx (eq_sym E)). by rewrite E.
 Qed.
+
+(* ------------------------------------------------------------------ read_denotes, soundness, blackbox-free modules *)
+Lemma init_rinv rsv bbs : let kg := init_ctx rsv bbs in
+  k_rsv kg.1 = rsv ∧ k_bbs kg.1 = bbs ∧ ties kg.1 ## rsv ∧
+  k_t0 kg.1 ≠ k_t1 kg.1 ∧ k_t0 kg.1 ≠ k_tx kg.1 ∧ k_t1 kg.1 ≠ k_tx kg.1 ∧ rinv kg.1 [] kg.2 ∅.
+Proof.
+  unfold init_ctx. cbv zeta. simpl.
+  set (t0 := uid_in rsv "tie_0"). set (g0 := ({[t0 := mk_node C0 false ∅]} : circuit)).
+  set (t1 := uid_in (dom g0 ∪ rsv) "tie_1"). set (g1 := <[t1 := mk_node C1 false ∅]> g0).
+  set (tx := uid_in (dom g1 ∪ rsv) "tie_x").
+  assert (H0 : t0 ∉ rsv) by apply uid_in_fresh.
+  assert (H1 : t1 ∉ dom g0 ∪ rsv) by apply uid_in_fresh.
+  assert (Hx : tx ∉ dom g1 ∪ rsv) by apply uid_in_fresh.
+  assert (D0 : dom g0 = {[t0]}) by (unfold g0; by rewrite dom_singleton_L).
+  assert (D1 : dom g1 = {[t1]} ∪ {[t0]}) by (unfold g1; rewrite dom_insert_L, D0; done).
+  assert (N01 : t0 ≠ t1) by (intros E; apply H1; rewrite D0; set_solver).
+  assert (N0x : t0 ≠ tx) by (intros E; apply Hx; rewrite D1; set_solver).
+  assert (N1x : t1 ≠ tx) by (intros E; apply Hx; rewrite D1; set_solver).
+  assert (L0 : <[tx := mk_node CX false ∅]> g1 !! t0 = Some (mk_node C0 false ∅)).
+  { rewrite lookup_insert_ne by done. unfold g1. rewrite lookup_insert_ne by done. unfold g0. by rewrite lookup_singleton. }
+  assert (L1 : <[tx := mk_node CX false ∅]> g1 !! t1 = Some (mk_node C1 false ∅)).
+  { rewrite lookup_insert_ne by done. unfold g1. by rewrite lookup_insert. }
+  assert (Lx : <[tx := mk_node CX false ∅]> g1 !! tx = Some (mk_node CX false ∅)) by (by rewrite lookup_insert).
+  assert (Lo : ∀ n i, <[tx := mk_node CX false ∅]> g1 !! n = Some i → n ∈ ({[t0; t1; tx]} : gset string) ∧ n_fi i = ∅).
+  { intros n i Hn. apply lookup_insert_Some in Hn as [[<- <-]|[_ Hn]]; [set_solver|]. unfold g1 in Hn.
+    apply lookup_insert_Some in Hn as [[<- <-]|[_ Hn]]; [set_solver|]. unfold g0 in Hn. apply lookup_singleton_Some in Hn as [<- <-]. set_solver. }
+  split; [done|]. split; [done|]. split; [unfold ties; simpl; set_solver|]. split; [done|]. split; [done|]. split; [done|].
+  split.
+  - unfold gst, ties. simpl. split; [|split; [|split]]; try set_solver.
+    + intros n i f Hn Hf. destruct (Lo n i Hn) as [_ E]. rewrite E in Hf. set_solver.
+    + intros x Hx'. apply elem_of_dom. rewrite !elem_of_union, !elem_of_singleton in Hx'. destruct Hx' as [[->| ->]| ->]; eauto.
+  - split; eexists; eauto.
+  - eexists; eauto.
+  - intros n Hn _ i Hi. destruct (Lo n i Hi) as [Hin _]. exfalso. set_solver.
+  - intros n d Hin. by apply elem_of_nil in Hin.
+  - constructor.
+Qed.
+
+Theorem read_sound_items rsv bbs m C :
+  Forall (item_den_ok (init_ctx rsv bbs).1 (list_to_set (drivers m).*1)) (m_items m) → NoDup (drivers m).*1 →
+  read rsv bbs m = Ok C → ∀ w, consistent (c_g C) w → sat_module m w (w (k_tx (init_ctx rsv bbs).1)).
+Proof.
+  intros Hok Hnd H w Hw. unfold read in H. pose proof (init_rinv rsv bbs) as Hk. cbv zeta in Hk.
+  destruct (init_ctx rsv bbs) as [k g0]. simpl in Hk, Hok |- *. destruct Hk as (Er & Eb & Htr & N01 & N0x & N1x & Hi0). subst rsv.
+  apply mbind_ok in H as (st & Hf & Hfin).
+  eapply (items_rinv k _ Htr (m_items m) _ st []) in Hf; [|exact Hi0|exact Hok|exact Hnd|done].
+  simpl in Hf. fold (drivers m) in Hf. destruct Hf as [G T X U E N].
+  unfold finish in Hfin. repeat (case_bool_decide; simpl in Hfin; try discriminate).
+  destruct (set_output_g (r_g st) (elements (r_outs st)) true) as [g' o] eqn:Es. destruct o; [|discriminate].
+  injection Hfin as <-. simpl in Hw. fold (drop_tie g' (k_t0 k)) in Hw. fold (drop_tie (drop_tie g' (k_t0 k)) (k_t1 k)) in Hw.
+  fold (drop_tie (drop_tie (drop_tie g' (k_t0 k)) (k_t1 k)) (k_tx k)) in Hw.
+  pose proof (set_output_spec _ _ _ Es) as [_ Hl].
+  assert (Hty : ∀ z i, r_g st !! z = Some i → ∃ i', g' !! z = Some i' ∧ n_ty i' = n_ty i).
+  { intros z i Hz. rewrite Hl, Hz. simpl. case_bool_decide; eauto. }
+  destruct T as [(i0 & L0 & T0) (i1 & L1 & T1)]. destruct X as (ix & Lx & Tx).
+  destruct (Hty _ _ L0) as (j0 & M0 & S0). destruct (Hty _ _ L1) as (j1 & M1 & S1). destruct (Hty _ _ Lx) as (jx & Mx & Sx).
+  destruct (drop_lookup g' (k_t0 k) (k_t1 k) j1 (not_eq_sym N01) M1) as (j1' & M1' & S1').
+  destruct (drop_lookup g' (k_t0 k) (k_tx k) jx (not_eq_sym N0x) Mx) as (jx' & Mx' & Sx').
+  destruct (drop_lookup _ (k_t1 k) (k_tx k) jx' (not_eq_sym N1x) Mx') as (jx'' & Mx'' & Sx'').
+  assert (Hnr : ∀ z, z ∈ ties k → z ∉ k_rsv k) by (intros z Hz Hr; by apply (Htr z)).
+  assert (Href : refines_rsv k (r_g st) (drop_tie (drop_tie (drop_tie g' (k_t0 k)) (k_t1 k)) (k_tx k))).
+  { eapply refines_trans; [apply refines_same; intros v; by eapply set_output_consistent|].
+    eapply refines_trans; [eapply (drop_refines k g' (k_t0 k) j0 M0)|].
+    - rewrite S0, T0. set_solver.
+    - apply Hnr. unfold ties. set_solver.
+    - intros E'. done.
+    - eapply refines_trans; [eapply (drop_refines k _ (k_t1 k) j1' M1')|].
+      + rewrite S1', S1, T1. set_solver.
+      + apply Hnr. unfold ties. set_solver.
+      + intros E'. done.
+      + eapply (drop_refines k _ (k_tx k) jx'' Mx'').
+        * rewrite Sx'', Sx', Sx, Tx. set_solver.
+        * apply Hnr. unfold ties. set_solver.
+        * intros _. by rewrite Sx'', Sx', Sx. }
+  destruct (Href w Hw) as (v1 & C1 & A1 & X1).
+  intros n d Hin. rewrite Forall_forall in N. destruct (N _ Hin) as [Hn Hd]. simpl in *.
+  rewrite <- (A1 n Hn), <- X1. rewrite (E n d Hin v1 C1). apply sem_driver_ext. intros s Hs. apply A1, Hd. by apply elem_of_list_to_set.
+Qed.
